@@ -35,6 +35,22 @@ def stories():
         # a silent first connection and a healthy second one within ONE generation: the ACK timeout has to end the silent
         # session so that everything is retransmitted and acknowledged without a restart
         {"id": "silent-then-healthy-same-generation", "keys": 1, "memWindow": 0, "gens": [{"upstream": ["noAck", "healthy"], "clients": [c(25, 5, 35)], "stopAfterMs": 20, "drain": True}]},
+        # the Datadog output end to end (HTTP intake, one scripted outcome per request; chunk files *.dd)
+        {"id": "datadog-healthy", "datadog": True, "keys": 2, "memWindow": 0, "gens": [{"upstream": [], "clients": [c(30, 5, 35), c(12, 4, 35)], "stopAfterMs": 60}, fin]},
+        {"id": "datadog-every-failure-then-restart", "datadog": True, "keys": 2, "memWindow": 0, "gens": [
+            {"upstream": ["resetAfter1", "closeNow", "noAck", "resetAfter2", "lateAck", "resetAfter1", "closeNow"], "clients": [c(40, 5, 35), c(20, 5, 35, 10)], "stopAfterMs": 40},
+            {"upstream": ["resetAfter2", "healthy", "closeNow"], "clients": [c(10, 5, 35)], "stopAfterMs": 20}, fin]},
+        {"id": "datadog-request-in-flight-at-stop", "datadog": True, "keys": 1, "memWindow": 2, "gens": [{"upstream": ["noAck"] * 30, "clients": [c(60, 6, 35)], "stopAfterMs": 30}, fin]},
+        # an intake that accepts requests and never answers, with an httpTimeout beyond the buffer's shutdown bound (5 s here)
+        {"id": "datadog-silent-long-http-timeout", "datadog": True, "ddTimeoutMs": 9000, "keys": 1, "memWindow": 0, "gens": [{"upstream": ["noAck"] * 8, "clients": [c(20, 5, 35)], "stopAfterMs": 30}, fin]},
+        # chunks that roll over by record count: the last record before the stop is the one that opened a new chunk
+        {"id": "rollover-by-count-then-stop", "chunkRecords": 5, "keys": 1, "memWindow": 0, "gens": [{"upstream": ["healthy"], "clients": [c(11), c(6, 0, 0, 50)], "stopAfterMs": 0}, fin]},
+        {"id": "rollover-by-count-upstream-down", "chunkRecords": 3, "keys": 2, "memWindow": 2, "gens": [{"upstream": ["closeNow"] * 30, "clients": [c(14), c(8)], "stopAfterMs": 10}, fin]},
+        # a connection that is silent for longer than the intermediate channel timeout (2 s here) and then logs again
+        {"id": "idle-longer-than-channel-timeout", "keys": 1, "memWindow": 0, "gens": [{"upstream": ["healthy"], "clients": [c(9, 3, 2250), c(6, 2, 2300)], "stopAfterMs": 20}, fin]},
+        # no scheduled reconnect to hide behind: only the ACK timeout ends a session with a silent upstream
+        {"id": "silent-then-healthy-no-scheduled-reconnect", "maxDurationMs": 60000, "keys": 1, "memWindow": 0, "gens": [{"upstream": ["noAck", "healthy"], "clients": [c(25, 5, 35)], "stopAfterMs": 20, "drain": True}]},
+        {"id": "late-and-silent-no-scheduled-reconnect", "maxDurationMs": 60000, "keys": 2, "memWindow": 0, "gens": [{"upstream": ["lateAck", "noAck", "resetAfter1", "noAck", "healthy"], "clients": [c(40, 4, 35), c(10, 5, 40)], "stopAfterMs": 20, "drain": True}]},
         {"id": "stop-mid-retry", "keys": 2, "memWindow": 0, "gens": [{"upstream": ["closeNow"] * 30, "clients": [c(20, 5, 35)], "stopAfterMs": 0}, {"upstream": ["noAck"], "clients": [c(20, 5, 35)], "stopAfterMs": 0}, fin]},
     ]
 
@@ -58,7 +74,13 @@ def random_script(sid, rnd, reload_kinds=()):
         gens.append(gen)
     gens.append({"upstream": [], "clients": [{"n": 2, "pauseEvery": 0, "pauseMs": 0, "delayMs": 0}], "stopAfterMs": 20, "drain": True})
     sc = {"id": sid, "keys": rnd.choice([1, 2, 2, 3]), "memWindow": rnd.choice([0, 0, 2, 4]), "gens": gens}
-    if not reload_kinds and rnd.random() < 0.2:
+    if rnd.random() < 0.3:
+        sc["chunkRecords"] = rnd.choice([1, 2, 5, 5])
+    if rnd.random() < 0.3:
+        sc["maxDurationMs"] = 60000
+    if not reload_kinds and rnd.random() < 0.15:
+        sc["datadog"] = True
+    elif not reload_kinds and rnd.random() < 0.2:
         sc["twoOutputs"] = True
         if rnd.random() < 0.5:
             gens[-1]["clients"] = []      # nothing new arrives after the last restart: the queues alone bring the pipelines back
